@@ -64,7 +64,7 @@ PKR = "crates/core/src/blob/packer.rs"
 UNITS += [
     Unit(name="prune_removal_tail", file=PRU, kind="block", within="pub(crate) fn prune_repository<S: Open>(",
          anchor="if repack_packs.is_empty() {", block_end="@fn_end",
-         block_sig="fn prune_removal_tail(repo: &VRepoR3, be: &VPruneBe, repack_packs: Vec<PackId>, indexes_remove: Vec<Id>, data_packs_remove: Vec<PackId>, tree_packs_remove: Vec<PackId>, early_delete_index: bool, w: &mut PruneWorld) -> (r: RusticResult<()>)",
+         block_sig="fn prune_removal_tail(repo: &VRepoR3, be: &VPruneBe, repack_packs: Vec<PackId>, indexes_remove: Vec<Id>, data_packs_remove: Vec<PackId>, tree_packs_remove: Vec<PackId>, early_delete_index: bool, opts: &PruneOptionsW, w: &mut PruneWorld) -> (r: RusticResult<()>)",
          block_tail="",
          functions=["commands::prune::prune_repository (the removal tail: old index files, then old data packs, then old tree packs)"],
          rewrites=[
@@ -78,6 +78,7 @@ UNITS += [
          contract="""
     requires
         // the old index files are already gone if there were none or if the user asked for early deletion
+        early_delete_index == (opts.early_delete_index && opts.instant_delete),   // the local defined in front of the early removal (unit prune_early_index_removal)
         (indexes_remove@.len() == 0 || early_delete_index) ==> old(w).old_index_removed@,
     // (implicit obligations: packs are removed only after the index files that may list them)
 """),
@@ -196,6 +197,20 @@ UNITS += [
              Rw("snap.id = repo.dbe().save_file(&snap)?.into();", "snap.id = repo.vsave_snapshot(&snap, w)?;", why="save_file of the merged snapshot -> effectful stub: PRECONDITION 'trees stored and indexed'"),
          ],
          contract="\n    // (implicit obligation: the merged snapshot is saved only after its trees were packed and the index was finalized)\n"),
+]
+
+UNITS += [
+    Unit(name="prune_early_index_removal", file=PRU, kind="block", within="pub(crate) fn prune_repository<S: Open>(",
+         anchor="let indexes_remove: Vec<_> = prune_plan", block_end="let mut tree_packs_remove = Vec::new();",
+         block_sig="fn prune_early_index_removal(repo: &VRepoR3, be: &VPruneBe, prune_plan: &PrunePlanW, opts: &PruneOptionsW) -> (r: RusticResult<()>)",
+         block_tail="    Ok(())",
+         functions=["commands::prune::prune_repository (early removal of the old index files: only for instant-delete + early-delete-index)"],
+         rewrites=[
+             Rw(r"let indexes_remove: Vec<_> = prune_plan\s*\.index_files\s*\.iter\(\)\s*\.map\(\|index\| index\.id\)\s*\.collect\(\);", "let indexes_remove = vindexes_to_remove(prune_plan);" + "\n" * 4, regex=True, why="iterator map/collect of the index ids -> stub"),
+             Rw('repo.progress_counter("removing old index files...")', "repo.vprogress_counter()", why="progress bar"),
+             Rw("be.delete_list(true, indexes_remove.iter(), p)?;", "be.vdelete_index_files_early(&indexes_remove, p, Ghost(*opts))?;", why="delete_list of the old index files before the new index exists -> effectful stub: PRECONDITION 'the documented-unsafe option pair was requested'"),
+         ],
+         contract="\n    // (implicit obligation: the old index files are removed before the new index is written only for instant-delete + early-delete-index)\n"),
 ]
 
 META = {"not_covered": [
